@@ -32,6 +32,8 @@ func (VTimer) Nonce() []byte                               { return []byte{1, 2,
 type Keys struct {
 	Ecc     *ecdsa.PrivateKey
 	Ecc384  *ecdsa.PrivateKey
+	Ecc224  *ecdsa.PrivateKey
+	Ecc521  *ecdsa.PrivateKey
 	Rsa1024 *rsa.PrivateKey
 	Rsa2048 *rsa.PrivateKey
 	Hmac    []byte
@@ -57,6 +59,8 @@ func GetKeys() *Keys {
 		}
 		k.Ecc, _ = ecdsa.GenerateKey(elliptic.P256(), crand.Reader)
 		k.Ecc384, _ = ecdsa.GenerateKey(elliptic.P384(), crand.Reader)
+		k.Ecc224, _ = ecdsa.GenerateKey(elliptic.P224(), crand.Reader)
+		k.Ecc521, _ = ecdsa.GenerateKey(elliptic.P521(), crand.Reader)
 		k.Rsa1024, _ = rsa.GenerateKey(crand.Reader, 1024)
 		k.Rsa2048, _ = rsa.GenerateKey(crand.Reader, 2048)
 		keys = k
@@ -75,7 +79,7 @@ type Case struct {
 	KeyName enc.Name
 }
 
-var DataSigners = []string{"none", "none", "sha256", "sha256", "hmac", "ecc", "ecc384", "rsa1024", "rsa2048", "empty", "hmac-cert"}
+var DataSigners = []string{"none", "none", "sha256", "sha256", "hmac", "ecc", "ecc384", "ecc224", "ecc521", "rsa1024", "rsa2048", "empty", "hmac-cert"}
 var IntSigners = []string{"none", "none", "none", "sha256int", "hmacint", "eccint", "rsa1024int", "sha256", "hmac", "ecc"}
 
 var lenBoundaries = []int{0, 1, 2, 100, 252, 253, 254, 255, 256, 300, 1000}
@@ -252,6 +256,10 @@ func (c *Case) MakeSigner() ndn.Signer {
 		return sec.NewEccSigner(false, false, 0, k.Ecc, c.KeyName)
 	case "ecc384":
 		return sec.NewEccSigner(false, false, 0, k.Ecc384, c.KeyName)
+	case "ecc224":
+		return sec.NewEccSigner(false, false, 0, k.Ecc224, c.KeyName)
+	case "ecc521":
+		return sec.NewEccSigner(false, false, 0, k.Ecc521, c.KeyName)
 	case "eccint":
 		return sec.NewEccSigner(false, true, 0, k.Ecc, c.KeyName)
 	case "rsa1024":
